@@ -62,7 +62,15 @@ type Check struct {
 
 var checks = map[string]*Check{}
 
-func register(c *Check) { checks[c.ID] = c }
+func register(c *Check) {
+	if a := ruleAddenda[c.ID]; a != "" {
+		c.Rule += "; later additions: " + a
+	}
+	if c.Main != nil { // compiled checks
+		c.Rule += ruleCommonAddendum
+	}
+	checks[c.ID] = c
+}
 
 func main() {
 	if len(os.Args) < 2 {
